@@ -160,6 +160,24 @@ type RunSpec struct {
 	Liveness      *Liveness       `json:"liveness,omitempty"`
 	Extra         json.RawMessage `json:"extra,omitempty"`
 	KeepLog       bool            `json:"keepLog,omitempty"`
+	Dump          bool            `json:"dump,omitempty"` // reference pass: record segment geometry and wire bytes
+}
+
+// SegGeo is the byte geometry of one decoded segment (reference pass of C04).
+type SegGeo struct {
+	Scope  string `json:"scope"` // "tcp#<conn>" or the client flow address
+	Client int    `json:"client"`
+	Conn   int    `json:"conn"`  // tcp: connection index
+	Dir    int    `json:"dir"`
+	Index  int    `json:"index"` // udp: datagram index within (flow, dir)
+	Type   int    `json:"type"`
+	Sess   uint32 `json:"sess"`
+	Seq    uint32 `json:"seq"`
+	AtUs   int64  `json:"atUs"` // virtual time the segment was completely emitted
+	Start  int64  `json:"start"`
+	End    int64  `json:"end"`
+	// field spans: [off,end) pairs in the order nonce, encMeta, metaTag, padding1, body, payloadTag, padding2
+	Spans [7][2]int64 `json:"spans"`
 }
 
 // Liveness arms the C02 progress oracle.
@@ -208,5 +226,7 @@ type RunResult struct {
 	Segments   int               `json:"segments,omitempty"` // segments decoded by the tap
 	Info       map[string]string `json:"info,omitempty"`
 	Log        []string          `json:"log,omitempty"`
+	Geo        []SegGeo          `json:"geo,omitempty"`
+	Wire       map[string]string `json:"wire,omitempty"` // hex: "tcp#<conn>/<dir>" -> stream bytes; "<flow>/<dir>/<index>" -> datagram
 	WallMs     int64             `json:"wallMs"`
 }
